@@ -422,6 +422,15 @@ impl<'a> EFIMemoryAreaIter<'a> {
     fn new(mmap_tag: &'a EFIMemoryMapTag) -> Self {
         let desc_size = mmap_tag.desc_size as usize;
         let mmap_len = mmap_tag.memory_map.len();
+        assert!(
+            desc_size >= mem::size_of::<EFIMemoryDesc>(),
+            "`desc_size` must cover at least one EFI memory descriptor. The MBI seems to be corrupt."
+        );
+        assert_eq!(
+            desc_size % mem::align_of::<EFIMemoryDesc>(),
+            0,
+            "`desc_size` must keep the descriptors aligned. The MBI seems to be corrupt."
+        );
         assert_eq!(mmap_len % desc_size, 0, "memory map length must be a multiple of `desc_size` by definition. The MBI seems to be corrupt.");
         Self {
             mmap_tag,
